@@ -995,7 +995,7 @@ class GeneralThermodynamics:
             return result.chemical_potentials, cs_matrix, cs_precip, miscibility_gap
         
         # If no cache exists, then compute global equilibrium, else, update cached composition sets
-        if cached_composition_sets.get(precPhase, None) is None:
+        if not cached_composition_sets.get(precPhase, None):
             wks = self.getEq(x, T, 0, precPhase)
             cs_matrix, cs_precip, miscibility_gap = _process_composition_sets(wks.get_composition_sets())
             chemical_potentials = np.squeeze(wks.eq.MU)
